@@ -42,155 +42,188 @@ def one_block(chk, rng, kind, idx):
         mitems.append([0, cid, cps(lab), ni])
     b = api.make_block(kind, nfr)
     api.install(kind, b, items)
-    # the block may have been edited before it is looked into: removals, additions, re-labelling
     edits = []
-    for _ in range(rng.choice([0, 0, 1, 2, 3])):
-        r = rng.random()
-        if r < 0.4 and items:
-            j = rng.randrange(len(items))
-            if kind == "EM":
-                j = labels.index(labels[j])            # removeSignal(label) removes the first carrier
-                b.removeSignal(labels[j])
-            elif kind == "EV":
-                del b.events[j]
-            else:
-                b.tracks = [t for k, t in enumerate(b.tracks) if k != j]
-            edits.append("remove %d" % j)
-            del items[j], labels[j], mitems[j]
-        elif r < 0.7:
-            lab = rng.choice(api.LABEL_POOL)
-            salt = rng.randrange(2)
-            ni = nfr if kind != "EV" else rng.choice([0, 1, 3])
-            it = api.make_item(kind, lab, ni, salt)
-            api.install(kind, b, [it]) if kind != "EV" else b.events.append(it)
-            items.append(it)
-            labels.append(lab)
-            mitems.append([0, content.setdefault((lab, salt, ni), len(content) + 1), cps(lab), ni])
-            edits.append("add %r" % lab)
-        elif items:
-            j = rng.randrange(len(items))
-            lab = rng.choice(api.LABEL_POOL)
-            items[j].label = lab
-            labels[j] = lab
-            mitems[j] = [0, 5000 + len(edits) * 10 + j, cps(lab), mitems[j][3]]
-            edits.append("relabel %d -> %r" % (j, lab))
-    n = len(items)
-    before_ids = [id(x) for x in api.items_of(kind, b)]
-    before_bytes = api.encoded(b)
-    ks, others = keys_for(items, labels, kind, n)
-    # item keys: a present object, an equal-but-distinct one, an absent one, an item of another class
-    item_keys = []
-    if items:
-        j = rng.randrange(n)
-        item_keys.append((mitems[j], items[j], "present"))
-        lab = labels[j]
-        hit = next(((s, k) for (l, s, k) in content if l == lab and content[(l, s, k)] == mitems[j][1]), None)
-        if hit is not None:
-            item_keys.append((mitems[j], api.make_item(kind, lab, hit[1], hit[0]), "equal copy"))
-    item_keys.append(([0, 999, cps("nobody"), nfr], api.make_item(kind, "nobody", nfr, 7), "absent"))
-    other_kind = "EV" if kind != "EV" else "EM"
-    foreign = api.make_item(other_kind, "c7", nfr)
-    allk = ks + others + [(m, p) for m, p, _ in item_keys] + [([4, 9], foreign)]
-    # ---- implementation
-    obs = []
-    for mk, pk in allk:
-        try:
-            r = b[pk]
-            g = [0, before_ids.index(id(r))] if id(r) in before_ids else [0, -1]
-        except Exception as e:
-            g = [api.exc_name(e)]
-        try:
-            c = [0, 1 if (pk in b) else 0]
-        except Exception as e:
-            c = [api.exc_name(e)]
-        obs.append((g, c))
-    it = [id(x) for x in b]
-    ln = len(b)
-    # iteration is repeatable and re-entrant: two iterators over one block do not disturb each other, and iterating does
-    # not change the block (not even attributes that do not show in its encoding)
-    state0 = sorted((k, id(v)) for k, v in vars(b).items())
-    pairs = [(id(x), id(y)) for x, y in zip(b, b)]
-    nested = sum(1 for _x in b for _y in b)
-    i1 = iter(b)
-    head = [id(next(i1))] if ln else []
-    full = [id(x) for x in b]                    # a complete pass while i1 is suspended
-    rest = head + [id(x) for x in i1]
-    state1 = sorted((k, id(v)) for k, v in vars(b).items())
-    what = {"kind": kind, "labels": labels, "nframes": nfr, "edits_before_lookup": edits}
-    chk.note_case((kind, tuple(labels), nfr), n >= 2 and len(set(labels)) < n or n >= 1)
-    chk.count("%s items=%d" % (kind, n))
-    chk.count("duplicate labels" if len(set(labels)) < n else "distinct labels")
-    chk.count("edited before lookup: %d" % len(edits))
-    # ---- oracle: the property's clauses on the implementation alone
-    found = None
-    if ln != len(it):
-        found = "len() = %d but iteration yields %d items" % (ln, len(it))
-    elif it != before_ids:
-        found = "iteration does not yield the items in order"
-    if not found:
-        if pairs != [(i, i) for i in before_ids]:
-            found = "zip(block, block) pairs %d items (i-th with i-th expected for all %d)" % (len(pairs), n)
-        elif nested != n * n:
-            found = "a loop over the block nested in a loop over the block runs %d times, expected %d" % (nested, n * n)
-        elif full != before_ids or rest != before_ids:
-            found = "an iterator suspended while the block is iterated again yields %d items, the other pass %d (expected %d each)" % (len(rest), len(full), n)
-        elif state0 != state1:
-            found = "iterating changed an attribute of the block (%r)" % sorted(set(k for k, _ in set(state0) ^ set(state1)))
-    for (mk, pk), (g, c) in zip(allk, obs):
+
+    def do_edits(count):
+        for _ in range(count):
+            r = rng.random()
+            if r < 0.12 and len(items) >= 2:
+                # an earlier item takes the label of a later one: the FIRST carrier of that label is now another item
+                j = rng.randrange(1, len(items))
+                i = rng.randrange(0, j)
+                items[i].label = labels[j]
+                labels[i] = labels[j]
+                mitems[i] = [0, 7000 + len(edits) * 10 + i, cps(labels[j]), mitems[i][3]]
+                edits.append("relabel %d -> the label of %d" % (i, j))
+                continue
+            if r < 0.2 and len(items) >= 2 and kind != "EM":
+                # the same items in reverse order (assigned through the list setter / the event list reversed)
+                if kind == "EV":
+                    b.events.reverse()
+                else:
+                    b.tracks = list(reversed(list(b.tracks)))
+                items.reverse(), labels.reverse(), mitems.reverse()
+                edits.append("reverse")
+                continue
+            r = (r - 0.2) / 0.8
+            if r < 0.4 and items:
+                j = rng.randrange(len(items))
+                if kind == "EM":
+                    j = labels.index(labels[j])            # removeSignal(label) removes the first carrier
+                    b.removeSignal(labels[j])
+                elif kind == "EV":
+                    del b.events[j]
+                else:
+                    b.tracks = [t for k, t in enumerate(b.tracks) if k != j]
+                edits.append("remove %d" % j)
+                del items[j], labels[j], mitems[j]
+            elif r < 0.7:
+                lab = rng.choice(api.LABEL_POOL)
+                salt = rng.randrange(2)
+                ni = nfr if kind != "EV" else rng.choice([0, 1, 3])
+                it = api.make_item(kind, lab, ni, salt)
+                api.install(kind, b, [it]) if kind != "EV" else b.events.append(it)
+                items.append(it)
+                labels.append(lab)
+                mitems.append([0, content.setdefault((lab, salt, ni), len(content) + 1), cps(lab), ni])
+                edits.append("add %r" % lab)
+            elif items:
+                j = rng.randrange(len(items))
+                lab = rng.choice(api.LABEL_POOL)
+                items[j].label = lab
+                labels[j] = lab
+                mitems[j] = [0, 5000 + len(edits) * 10 + j, cps(lab), mitems[j][3]]
+                edits.append("relabel %d -> %r" % (j, lab))
+
+    def inspect(stage):
+        n = len(items)
+        before_ids = [id(x) for x in api.items_of(kind, b)]
+        before_bytes = api.encoded(b)
+        ks, others = keys_for(items, labels, kind, n)
+        # item keys: a present object, an equal-but-distinct one, an absent one, an item of another class
+        item_keys = []
+        if items:
+            j = rng.randrange(n)
+            item_keys.append((mitems[j], items[j], "present"))
+            lab = labels[j]
+            hit = next(((s, k) for (l, s, k) in content if l == lab and content[(l, s, k)] == mitems[j][1]), None)
+            if hit is not None:
+                item_keys.append((mitems[j], api.make_item(kind, lab, hit[1], hit[0]), "equal copy"))
+        item_keys.append(([0, 999, cps("nobody"), nfr], api.make_item(kind, "nobody", nfr, 7), "absent"))
+        other_kind = "EV" if kind != "EV" else "EM"
+        foreign = api.make_item(other_kind, "c7", nfr)
+        allk = ks + others + [(m, p) for m, p, _ in item_keys] + [([4, 9], foreign)]
+        # ---- implementation
+        obs = []
+        for mk, pk in allk:
+            try:
+                r = b[pk]
+                g = [0, before_ids.index(id(r))] if id(r) in before_ids else [0, -1]
+            except Exception as e:
+                g = [api.exc_name(e)]
+            try:
+                c = [0, 1 if (pk in b) else 0]
+            except Exception as e:
+                c = [api.exc_name(e)]
+            obs.append((g, c))
+        it = [id(x) for x in b]
+        ln = len(b)
+        # iteration is repeatable and re-entrant: two iterators over one block do not disturb each other, and iterating does
+        # not change the block (not even attributes that do not show in its encoding)
+        state0 = sorted((k, id(v)) for k, v in vars(b).items())
+        pairs = [(id(x), id(y)) for x, y in zip(b, b)]
+        nested = sum(1 for _x in b for _y in b)
+        i1 = iter(b)
+        head = [id(next(i1))] if ln else []
+        full = [id(x) for x in b]                    # a complete pass while i1 is suspended
+        rest = head + [id(x) for x in i1]
+        state1 = sorted((k, id(v)) for k, v in vars(b).items())
+        what = {"kind": kind, "labels": labels, "nframes": nfr, "edits_before_lookup": edits}
+        chk.note_case((kind, tuple(labels), nfr), n >= 2 and len(set(labels)) < n or n >= 1)
+        chk.count("%s items=%d" % (kind, n))
+        chk.count("duplicate labels" if len(set(labels)) < n else "distinct labels")
+        chk.count("edited before lookup: %d" % len(edits))
+        # ---- oracle: the property's clauses on the implementation alone
+        found = None
+        if ln != len(it):
+            found = "len() = %d but iteration yields %d items" % (ln, len(it))
+        elif it != before_ids:
+            found = "iteration does not yield the items in order"
+        if not found:
+            if pairs != [(i, i) for i in before_ids]:
+                found = "zip(block, block) pairs %d items (i-th with i-th expected for all %d)" % (len(pairs), n)
+            elif nested != n * n:
+                found = "a loop over the block nested in a loop over the block runs %d times, expected %d" % (nested, n * n)
+            elif full != before_ids or rest != before_ids:
+                found = "an iterator suspended while the block is iterated again yields %d items, the other pass %d (expected %d each)" % (len(rest), len(full), n)
+            elif state0 != state1:
+                found = "iterating changed an attribute of the block (%r)" % sorted(set(k for k, _ in set(state0) ^ set(state1)))
+        for (mk, pk), (g, c) in zip(allk, obs):
+            if found:
+                break
+            if mk[0] == 1:
+                i = mk[1]
+                if -n <= i < n:
+                    if g != [0, i % n]:
+                        found = "block[%r] returned %r, expected the item at position %d" % (pk, g, i % n)
+                elif g != ["IndexError"]:
+                    found = "block[%r] with %d items gave %r, expected IndexError" % (pk, n, g)
+            elif mk[0] == 2:
+                first = next((j for j, l in enumerate(labels) if l == pk), None)
+                if first is None:
+                    if g != ["KeyError"]:
+                        found = "block[%r] (no such label) gave %r, expected KeyError" % (pk, g)
+                    if c != [0, 0]:
+                        found = found or "%r in block is %r although no item carries that label" % (pk, c)
+                else:
+                    if g != [0, first]:
+                        found = "block[%r] returned %r, expected the first carrier at position %d" % (pk, g, first)
+                    if c != [0, 1]:
+                        found = found or "%r in block is %r although lookup by it succeeds" % (pk, c)
+            elif mk[0] in (3, 4):
+                if g != ["TypeError"]:
+                    found = "block[%r] gave %r, expected TypeError" % (type(pk).__name__, g)
+                elif c != ["TypeError"]:
+                    found = "%s in block gave %r, expected TypeError" % (type(pk).__name__, c)
+            elif mk[0] == 0:
+                if g != ["TypeError"]:
+                    found = "block[<item>] gave %r, expected TypeError" % (g,)
+        if not found and ([id(x) for x in api.items_of(kind, b)] != before_ids or api.encoded(b) != before_bytes):
+            found = "a lookup changed the block"
         if found:
-            break
-        if mk[0] == 1:
-            i = mk[1]
-            if -n <= i < n:
-                if g != [0, i % n]:
-                    found = "block[%r] returned %r, expected the item at position %d" % (pk, g, i % n)
-            elif g != ["IndexError"]:
-                found = "block[%r] with %d items gave %r, expected IndexError" % (pk, n, g)
-        elif mk[0] == 2:
-            first = next((j for j, l in enumerate(labels) if l == pk), None)
-            if first is None:
-                if g != ["KeyError"]:
-                    found = "block[%r] (no such label) gave %r, expected KeyError" % (pk, g)
-                if c != [0, 0]:
-                    found = found or "%r in block is %r although no item carries that label" % (pk, c)
+            chk.violation("C18 %s: %s [labels %r, %s]" % (kind, found, labels, stage), what, True)
+            return True
+        # ---- correspondence with BlockAPI.v
+        m = common.run_model([(40, [list(mitems), [mk for mk, _ in allk]])])[0][1]
+        if m[0] != ln:
+            chk.violation("C18 %s: correspondence broken: len %d vs b_len %d" % (kind, ln, m[0]), dict(what, correspondence="BlockAPI.b_len"), False)
+            return True
+        for (mk, pk), (g, c), (mg, mc) in zip(allk, obs, m[1]):
+            eg = [0, None] if mg[0] == 0 else [{1: "ValueError", 2: "TypeError", 3: "KeyError", 4: "IndexError"}[mg[0]]]
+            if mg[0] == 0:
+                # the model returns the item; its position is the first item with that content id and label
+                want = mg[1]
+                got = mitems[g[1]] if g[0] == 0 and g[1] >= 0 else None
+                okg = got is not None and want[1:] == got[1:]
             else:
-                if g != [0, first]:
-                    found = "block[%r] returned %r, expected the first carrier at position %d" % (pk, g, first)
-                if c != [0, 1]:
-                    found = found or "%r in block is %r although lookup by it succeeds" % (pk, c)
-        elif mk[0] in (3, 4):
-            if g != ["TypeError"]:
-                found = "block[%r] gave %r, expected TypeError" % (type(pk).__name__, g)
-            elif c != ["TypeError"]:
-                found = "%s in block gave %r, expected TypeError" % (type(pk).__name__, c)
-        elif mk[0] == 0:
-            if g != ["TypeError"]:
-                found = "block[<item>] gave %r, expected TypeError" % (g,)
-    if not found and ([id(x) for x in api.items_of(kind, b)] != before_ids or api.encoded(b) != before_bytes):
-        found = "a lookup changed the block"
-    if found:
-        chk.violation("C18 %s: %s [labels %r]" % (kind, found, labels), what, True)
+                okg = g == eg
+            ec = [0, mc[1]] if mc[0] == 0 else [{1: "ValueError", 2: "TypeError", 3: "KeyError", 4: "IndexError"}[mc[0]]]
+            if not okg or c != ec:
+                chk.violation("C18 %s: correspondence broken at key %r: block[k] -> %r (model %r), k in block -> %r (model %r)" %
+                              (kind, pk if not hasattr(pk, "label") else "<item>", g, mg, c, ec),
+                              dict(what, correspondence="BlockAPI.getitem / contains", key=repr(mk)), False)
+                return True
+
+        return False
+
+    # the block is looked into, edited (removals, additions, re-labelling, re-ordering), and looked into again: what a lookup
+    # returns depends on what the block holds NOW
+    first_look = rng.random() < 0.6
+    if first_look and inspect("before any edit"):
         return
-    # ---- correspondence with BlockAPI.v
-    m = common.run_model([(40, [mitems, [mk for mk, _ in allk]])])[0][1]
-    if m[0] != ln:
-        chk.violation("C18 %s: correspondence broken: len %d vs b_len %d" % (kind, ln, m[0]), dict(what, correspondence="BlockAPI.b_len"), False)
-        return
-    for (mk, pk), (g, c), (mg, mc) in zip(allk, obs, m[1]):
-        eg = [0, None] if mg[0] == 0 else [{1: "ValueError", 2: "TypeError", 3: "KeyError", 4: "IndexError"}[mg[0]]]
-        if mg[0] == 0:
-            # the model returns the item; its position is the first item with that content id and label
-            want = mg[1]
-            got = mitems[g[1]] if g[0] == 0 and g[1] >= 0 else None
-            okg = got is not None and want[1:] == got[1:]
-        else:
-            okg = g == eg
-        ec = [0, mc[1]] if mc[0] == 0 else [{1: "ValueError", 2: "TypeError", 3: "KeyError", 4: "IndexError"}[mc[0]]]
-        if not okg or c != ec:
-            chk.violation("C18 %s: correspondence broken at key %r: block[k] -> %r (model %r), k in block -> %r (model %r)" %
-                          (kind, pk if not hasattr(pk, "label") else "<item>", g, mg, c, ec),
-                          dict(what, correspondence="BlockAPI.getitem / contains", key=repr(mk)), False)
-            return
+    do_edits(rng.choice([0, 1, 2, 3]) if first_look else rng.choice([0, 0, 1, 2, 3]))
+    if edits or not first_look:
+        inspect("after the edits %r%s" % (edits, " that followed a first round of lookups" if first_look else ""))
 
 
 def run(chk):
